@@ -175,6 +175,14 @@ class Header:
 
                 i += 1
 
+                # A flattened loop rank may bind multiple output ranks
+                while part.is_flattened(order[pos]) and i < len(ranks) and \
+                        loop_order.is_ready(part.get_final_rank_id(
+                            output.get_init_ranks(), ranks[i]), pos):
+                    final_pos[ranks[i]] = pos
+
+                    i += 1
+
         for tensor in self.program.get_equation().get_tensors():
             # Skip the output
             if tensor.get_is_output():
